@@ -57,7 +57,10 @@ class Real:
                 cur = self.counters.setdefault((fam, k), [1000, 2000])
                 base = ref.get((fam, k), cur)
                 if k in wrap.get('net', []):
-                    cur = [max(0, base[0] - self.rnd.randint(1, 500)), base[1] + self.rnd.randint(0, 10)]
+                    # a counter wraps / is reset: the received one, the sent one, or both
+                    kind = self.rnd.choice(['in', 'out', 'both'])
+                    cur = [max(0, base[0] - self.rnd.randint(1, 500)) if kind != 'out' else base[0] + self.rnd.randint(1, 900),
+                           max(0, base[1] - self.rnd.randint(1, 500)) if kind != 'in' else base[1] + self.rnd.randint(0, 10)]
                 else:
                     cur = [max(cur[0], base[0]) + self.rnd.choice([0, 0, 128, 4096]),
                            max(cur[1], base[1]) + self.rnd.choice([0, 7, 99999])]
